@@ -15,7 +15,7 @@ func init() {
 		ID: "C32", Level: "exploration",
 		Rule: "random bulks of 1-40 self-identifying elements (creates by postings / script tagged with their index, metadata writes, reverts, metadata deletes; failing elements — insufficient funds, unknown transaction, missing metadata key — injected at random positions; dependent pairs where element k+1 spends what element k received) posted to POST /v2/{ledger}/_bulk as application/json and as the json-stream content type with options {none, atomic, continueOnFailure, parallel, parallel+continueOnFailure, atomic+parallel}; oracle: one result per element, result i describes element i, atomic = all or nothing, sequential stop-after-first-failure, continueOnFailure applies every non-failing element, successful create results equal the submitted element; the ledger snapshot must agree with the reported results. Parallel bulks also run under the race detector. Distinct = (options, handler, element-kind vector, failure positions); non-trivial = bulk has >=2 elements and >=1 failing element or dependent pair",
 		Assumptions: []string{seqAssume},
-		Run:  runC32,
+		Run:  func(r *core.Run) { runC32(r, "C32") },
 	})
 }
 
@@ -76,7 +76,16 @@ type c32Result struct {
 	Data         json.RawMessage `json:"data"`
 }
 
-func runC32(r *core.Run) {
+// runC32 reports the findings of property prop ("C32", or "C31" for the event rules on bulks).
+func runC32(r *core.Run, prop string) {
+	report := func(c *core.Case, sig string, detail any) {
+		if strings.HasPrefix(sig, prop+"/") {
+			c.Violation(sig, detail)
+		} else {
+			r.Seen("findings_for_other_properties", sig)
+		}
+	}
+	_ = report
 	optsAll := []string{"", "atomic=true", "continueOnFailure=true", "parallel=true", "parallel=true&continueOnFailure=true", "atomic=true&parallel=true", "atomic=true&continueOnFailure=true"}
 	n := r.N(1500, 40000)
 	workers := 0
@@ -98,7 +107,23 @@ func runC32(r *core.Run) {
 		if rng.Intn(4) == 0 {
 			size = 10 + rng.Intn(30)
 		}
+		fresh := c.Index%5 == 3 // bulk as the FIRST write of an initializing ledger
 		els := c32Gen(rng, size, !parallel)
+		if fresh {
+			var keep []c32El
+			for _, el := range els {
+				switch el.Kind {
+				case "add-tx-meta", "delete-missing-meta", "delete-account-meta":
+				default:
+					keep = append(keep, el)
+				}
+			}
+			els = keep
+			if len(els) == 0 {
+				els = c32Gen(rng, 1, false)[:0]
+				els = append(els, c32El{Kind: "create", Tag: "el:0", Logs: 1, JSON: `{"action":"CREATE_TRANSACTION","data":{"postings":[{"source":"world","destination":"el:0","asset":"USD","amount":10}],"metadata":{"el":"0"}}}`})
+			}
+		}
 		handler := []string{"json", "json-stream"}[rng.Intn(2)]
 		e := sim.NewEnv(sim.Options{})
 		defer e.Close()
@@ -108,8 +133,12 @@ func runC32(r *core.Run) {
 		for i := 0; i < 45; i++ {
 			md[fmt.Sprintf("k%d", i)] = "v"
 		}
-		e.Apply("l1", sim.Op{Kind: "postings", Postings: []sim.P{{Source: "world", Destination: "bank", Asset: "USD", Amount: "100"}}})
-		e.Apply("l1", sim.Op{Kind: "save_acc_meta", Address: "bank", Metadata: md})
+		if !fresh {
+			e.Apply("l1", sim.Op{Kind: "postings", Postings: []sim.P{{Source: "world", Destination: "bank", Asset: "USD", Amount: "100"}}})
+			e.Apply("l1", sim.Op{Kind: "save_acc_meta", Address: "bank", Metadata: md})
+		}
+		e.C.ResetEvents()
+		e.C.Trace = true
 		before := e.C.Snapshot("l1")
 		evBefore := e.Listener.Len()
 		var body string
@@ -129,7 +158,17 @@ func runC32(r *core.Run) {
 			path += "?" + opts
 		}
 		resp := e.Do("POST", path, []byte(body), headers)
+		e.C.Trace = false
 		after := e.C.Snapshot("l1")
+		// (in a parallel bulk several elements have their own SQL transactions open at once: the
+		// single-operation automaton does not apply there)
+		if viol, _, _ := c31Automaton(e.C.Events()); viol != "" && !strings.Contains(opts, "parallel=true") {
+			st := "in-use-ledger"
+			if fresh {
+				st = "first-write-on-initializing-ledger"
+			}
+			report(c, fmt.Sprintf("C31/event-before-commit:bulk:%s:%s", map[bool]string{true: "atomic", false: "non-atomic"}[strings.Contains(opts, "atomic=true")], st), map[string]any{"options": opts, "body": body, "what": viol, "trace": e.C.Events()})
+		}
 		var kinds []string
 		nFail, nDep := 0, 0
 		for _, el := range els {
@@ -144,6 +183,7 @@ func runC32(r *core.Run) {
 		r.Eval(fmt.Sprintf("%s|%s|%s", opts, handler, strings.Join(kinds, ",")), len(els) >= 2 && (nFail > 0 || nDep > 0))
 		r.Seen("options", opts)
 		r.Seen("handlers", handler)
+		r.Seen("ledger_state", map[bool]string{true: "initializing", false: "in-use"}[fresh])
 		if nFail > 0 {
 			r.Count("bulks_with_failures", 1)
 		}
@@ -158,10 +198,10 @@ func runC32(r *core.Run) {
 		sigBase := fmt.Sprintf("%s:%s", map[bool]string{true: "parallel", false: "sequential"}[parallel], handler)
 		if atomic && parallel {
 			if resp.Status != 412 {
-				c.Violation("C32/atomic-and-parallel-not-refused:"+handler, detail(nil))
+				report(c, "C32/atomic-and-parallel-not-refused:"+handler, detail(nil))
 			}
 			if before.Digest() != after.Digest() {
-				c.Violation("C32/refused-bulk-had-an-effect", detail(nil))
+				report(c, "C32/refused-bulk-had-an-effect", detail(nil))
 			}
 			return
 		}
@@ -169,18 +209,18 @@ func runC32(r *core.Run) {
 			if len(resp.Body) == 0 {
 				e.C.AbortAll()
 			}
-			c.Violation("C32/bulk-answered-500:"+sigBase, detail(nil))
+			report(c, "C32/bulk-answered-500:"+sigBase, detail(nil))
 			return
 		}
 		var out struct {
 			Data []c32Result `json:"data"`
 		}
 		if err := json.Unmarshal(resp.Body, &out); err != nil {
-			c.Violation("C32/response-not-json:"+sigBase, detail(map[string]any{"error": err.Error()}))
+			report(c, "C32/response-not-json:"+sigBase, detail(map[string]any{"error": err.Error()}))
 			return
 		}
 		if len(out.Data) != len(els) {
-			c.Violation(fmt.Sprintf("C32/result-count-differs-from-element-count:%s", sigBase), detail(map[string]any{"results": len(out.Data), "elements": len(els)}))
+			report(c, fmt.Sprintf("C32/result-count-differs-from-element-count:%s", sigBase), detail(map[string]any{"results": len(out.Data), "elements": len(els)}))
 			return
 		}
 		// result i must describe element i
@@ -197,7 +237,7 @@ func runC32(r *core.Run) {
 				want := map[string]string{"create": "CREATE_TRANSACTION", "create-dependent": "CREATE_TRANSACTION", "create-script": "CREATE_TRANSACTION", "create-fail": "CREATE_TRANSACTION",
 					"add-account-meta": "ADD_METADATA", "add-tx-meta": "ADD_METADATA", "revert-unknown": "REVERT_TRANSACTION", "delete-missing-meta": "DELETE_METADATA", "delete-account-meta": "DELETE_METADATA"}[el.Kind]
 				if res.ResponseType != want {
-					c.Violation("C32/result-does-not-describe-its-element:response-type:"+sigBase, detail(map[string]any{"index": i, "want": want, "got": res.ResponseType}))
+					report(c, "C32/result-does-not-describe-its-element:response-type:"+sigBase, detail(map[string]any{"index": i, "want": want, "got": res.ResponseType}))
 					return
 				}
 				if strings.HasPrefix(el.Kind, "create") {
@@ -209,12 +249,12 @@ func runC32(r *core.Run) {
 						Metadata map[string]string `json:"metadata"`
 					}
 					if err := json.Unmarshal(res.Data, &tx); err != nil || len(tx.Postings) != 1 || tx.Postings[0].Destination != el.Tag || tx.Metadata["el"] != fmt.Sprint(strings.TrimPrefix(el.Tag, "el:")) {
-						c.Violation("C32/result-does-not-describe-its-element:transaction:"+sigBase, detail(map[string]any{"index": i, "element": el.JSON, "result": string(res.Data)}))
+						report(c, "C32/result-does-not-describe-its-element:transaction:"+sigBase, detail(map[string]any{"index": i, "element": el.JSON, "result": string(res.Data)}))
 						return
 					}
 				}
 				if el.Fails {
-					c.Violation("C32/always-failing-element-reported-successful:"+el.Kind, detail(map[string]any{"index": i}))
+					report(c, "C32/always-failing-element-reported-successful:"+el.Kind, detail(map[string]any{"index": i}))
 				}
 			}
 		}
@@ -223,56 +263,56 @@ func runC32(r *core.Run) {
 		switch {
 		case atomic:
 			if anyFailed && before.Digest() != after.Digest() {
-				c.Violation("C32/atomic-bulk-with-a-failing-element-left-an-effect:"+handler, detail(map[string]any{"first_failure": firstFailure}))
+				report(c, "C32/atomic-bulk-with-a-failing-element-left-an-effect:"+handler, detail(map[string]any{"first_failure": firstFailure}))
 			}
 			if anyFailed && e.Listener.Len() != evBefore {
-				c.Violation("C31/atomic-bulk-rolled-back-but-published-events", detail(nil))
+				report(c, "C31/atomic-bulk-rolled-back-but-published-events", detail(nil))
 			}
 			if !anyFailed && newLogs != applied {
-				c.Violation("C32/atomic-bulk-without-failure-not-fully-applied:"+handler, detail(map[string]any{"new_logs": newLogs, "expected": applied}))
+				report(c, "C32/atomic-bulk-without-failure-not-fully-applied:"+handler, detail(map[string]any{"new_logs": newLogs, "expected": applied}))
 			}
 			if nFail == 0 && anyFailed {
-				c.Violation("C32/atomic-bulk-failed-without-a-failing-element:"+handler, detail(map[string]any{"first_failure": firstFailure}))
+				report(c, "C32/atomic-bulk-failed-without-a-failing-element:"+handler, detail(map[string]any{"first_failure": firstFailure}))
 			}
 		case !parallel && !cont:
 			// elements after the first failure must not be applied
 			for i := firstFailure + 1; firstFailure >= 0 && i < len(out.Data); i++ {
 				if out.Data[i].ErrorCode == "" {
-					c.Violation("C32/sequential-bulk-applied-an-element-after-the-first-failure:"+handler, detail(map[string]any{"first_failure": firstFailure, "index": i}))
+					report(c, "C32/sequential-bulk-applied-an-element-after-the-first-failure:"+handler, detail(map[string]any{"first_failure": firstFailure, "index": i}))
 					break
 				}
 			}
 			if newLogs != applied {
-				c.Violation("C32/ledger-disagrees-with-reported-results:sequential:"+handler, detail(map[string]any{"new_logs": newLogs, "reported_applied": applied}))
+				report(c, "C32/ledger-disagrees-with-reported-results:sequential:"+handler, detail(map[string]any{"new_logs": newLogs, "reported_applied": applied}))
 			}
 			if nFail == 0 && anyFailed {
-				c.Violation("C32/sequential-bulk-failed-without-a-failing-element:"+handler, detail(map[string]any{"first_failure": firstFailure}))
+				report(c, "C32/sequential-bulk-failed-without-a-failing-element:"+handler, detail(map[string]any{"first_failure": firstFailure}))
 			}
 		case !parallel && cont:
 			for i, res := range out.Data {
 				if !els[i].Fails && res.ErrorCode != "" {
-					c.Violation("C32/continue-on-failure-skipped-a-valid-element:"+handler, detail(map[string]any{"index": i}))
+					report(c, "C32/continue-on-failure-skipped-a-valid-element:"+handler, detail(map[string]any{"index": i}))
 					break
 				}
 			}
 			if newLogs != applied {
-				c.Violation("C32/ledger-disagrees-with-reported-results:continue:"+handler, detail(map[string]any{"new_logs": newLogs, "reported_applied": applied}))
+				report(c, "C32/ledger-disagrees-with-reported-results:continue:"+handler, detail(map[string]any{"new_logs": newLogs, "reported_applied": applied}))
 			}
 		default: // parallel
 			if newLogs != applied {
-				c.Violation("C32/ledger-disagrees-with-reported-results:parallel:"+handler, detail(map[string]any{"new_logs": newLogs, "reported_applied": applied}))
+				report(c, "C32/ledger-disagrees-with-reported-results:parallel:"+handler, detail(map[string]any{"new_logs": newLogs, "reported_applied": applied}))
 			}
 			if cont {
 				for i, res := range out.Data {
 					if !els[i].Fails && res.ErrorCode != "" {
-						c.Violation("C32/continue-on-failure-skipped-a-valid-element:parallel:"+handler, detail(map[string]any{"index": i}))
+						report(c, "C32/continue-on-failure-skipped-a-valid-element:parallel:"+handler, detail(map[string]any{"index": i}))
 						break
 					}
 				}
 			}
 		}
 		if !(atomic && anyFailed) && e.Listener.Len()-evBefore != newLogs {
-			c.Violation("C31/bulk-events-differ-from-committed-writes:"+sigBase, detail(map[string]any{"events": e.Listener.Len() - evBefore, "new_logs": newLogs}))
+			report(c, "C31/bulk-events-differ-from-committed-writes:"+sigBase, detail(map[string]any{"events": e.Listener.Len() - evBefore, "new_logs": newLogs}))
 		}
 		if c.Index < 2 {
 			r.Sample(map[string]any{"options": opts, "handler": handler, "elements": kinds, "status": resp.Status})
